@@ -1249,6 +1249,8 @@ class Emitter:
             if inner is not None:
                 return inner
             e1 = e[1]
+            if self.rust_text(e1) in cfg.get("try_exprs", {}):
+                return (cfg["try_exprs"][self.rust_text(e1)], [], False)
             if e1[0] == "call" and e1[1][0] == "path" and self.path_text(e1[1][1]) in cfg.get("try_calls", {}):
                 return (cfg["try_calls"][self.path_text(e1[1][1])], [a for a in e1[2] if not self.is_parser(a)], False)
             return None
@@ -1366,6 +1368,9 @@ class Emitter:
         v = e[1]
         if v is not None and v[0] == "call" and v[1][0] == "path" and v[1][1] == ["Err"]:
             return "(.err .format)"
+        if v is not None and v[0] == "call" and v[1][0] == "path" and v[1][1] == ["Ok"] and not self.has_effect(v[2]) \
+                and getattr(self, "final_k", None) is not None:
+            return "(" + self.final_k(self.ex(v)) + ")"
         raise Untranslatable("early return of a value in outcome mode")
 
     def o_block(self, sts, k):
@@ -1620,9 +1625,10 @@ def translate_outcome(name, body_text, cfg):
     ast = parse_body(body_text)
     em = Emitter(name, cfg)
     params = cfg["params"]
-    sig = " ".join(f"({p} : {t})" for p, t in params)
+    sig = (cfg.get("implicit", "") + " " if cfg.get("implicit") else "") + " ".join(f"({p} : {t})" for p, t in params)
     stateful = cfg.get("stateful", True)
     final = (lambda v: f".ok ({v}, bs)") if stateful else (lambda v: f".ok ({v})")
+    em.final_k = final
     body = em.o_block(ast[1], final)
     if cfg.get("prelude"):
         body = cfg["prelude"] + "\n" + body
